@@ -1081,11 +1081,19 @@ class Interp:
         return h(self, v, node, env) if h is not None else v
 
     def s_AsyncWith(self, node, env):
+        entered = []
         for it in node.items:
             v = self.eval(it.context_expr, env)
+            if isinstance(v, Sym) and hasattr(v, "aenter"):
+                v.aenter()  # model of `await v.__aenter__()` (contract-supplied)
+                entered.append(v)
             if it.optional_vars is not None:
                 self.bind_target(it.optional_vars, v, env)
-        self.exec_block(node.body, env)
+        try:
+            self.exec_block(node.body, env)
+        finally:
+            for v in reversed(entered):
+                v.aexit()  # runs on normal exit, return and exceptions alike, as `async with` guarantees
 
     def s_Try(self, node, env):
         try:
